@@ -298,8 +298,8 @@ package websocket
 //@ ensures[stale] imp(old(c.messageReader) != r, n == 0 && err == io.EOF && c.br.g_rd == old(c.br.g_rd))
 //@ ensures[C05.sticky] imp(old(c.readErr) != nil && old(c.messageReader) == r, n == 0 && err != nil && c.br.g_rd == old(c.br.g_rd))
 //@ ensures[C05.eof] imp(err == io.EOF && old(c.messageReader) == r, c.readRemaining == 0 && c.readFinal)
-//@ ensures[C03.bytes] forall(i, 0, n, b[i] == ite(c.isServer, s[c.br.g_rd - n + i] ^ c.readMaskKey[(c.g_rpos + i)&3], s[c.br.g_rd - n + i]))
-//@ ensures[C03.cursor] imp(n > 0, n <= c.g_rrem && c.readRemaining == c.g_rrem - n && imp(c.isServer, c.readMaskPos == (c.g_rpos + n)&3))
+//@ ensures[C03+C05.bytes] forall(i, 0, n, b[i] == ite(c.isServer, s[c.br.g_rd - n + i] ^ c.readMaskKey[(c.g_rpos + i)&3], s[c.br.g_rd - n + i]))
+//@ ensures[C03+C05.cursor] imp(n > 0, n <= c.g_rrem && c.readRemaining == c.g_rrem - n && imp(c.isServer, c.readMaskPos == (c.g_rpos + n)&3))
 //@ ensures[C03.contig] imp(old(c.readRemaining) > 0 && old(c.readErr) == nil && old(c.messageReader) == r, \
 //@     c.br.g_rd == old(c.br.g_rd) + n && c.g_rpos == old(c.readMaskPos) && c.g_rrem == old(c.readRemaining) && c.g_hcalls == old(c.g_hcalls))
 //@ ensures[C03.nonempty] imp(old(c.readRemaining) > 0 && old(c.readErr) == nil && old(c.messageReader) == r && len(b) > 0, n > 0 || err != nil)
@@ -597,7 +597,7 @@ package websocket
 //@ requires imp(w.err == nil, WBuf(w)) && imp(w.err == nil, WData(w))
 //@ modifies MsgMods(w)
 //@ ensures[C09.sticky] imp(old(c.writeErr) != nil, c.writeErr == old(c.writeErr))
-//@ ensures[closed] imp(old(w.err) != nil, result == old(w.err) && c.conn.g_wn == old(c.conn.g_wn) && w.err == old(w.err) && BufKept(c) && c.writer == old(c.writer) && c.g_wst == old(c.g_wst) && c.g_out == old(c.g_out))
+//@ ensures[closed] imp(old(w.err) != nil, result == old(w.err) && c.conn.g_wn == old(c.conn.g_wn) && w.err == old(w.err) && BufKept(c) && c.writer == old(c.writer) && c.g_wst == old(c.g_wst) && c.g_out == old(c.g_out) && c.g_acc == old(c.g_acc))
 //@ ensures[done] imp(old(w.err) == nil, Ended(c, w) && c.g_acc == old(c.g_acc) && c.g_out >= 0)
 //@ ensures[wst] imp(isControlT(old(w.frameType)), c.g_wst == old(c.g_wst))
 //@ ensures[sent] imp(old(w.err) == nil && result == nil, c.g_out == old(c.g_acc) && imp(!isControlT(old(w.frameType)), !c.g_wst))
@@ -623,6 +623,7 @@ package websocket
 //@ ensures imp(old(mw.err) == nil, Ended(mw.c, mw) && mw.c.g_acc == old(mw.c.g_acc) && mw.c.g_out >= 0)
 //@ ensures imp(isControlT(old(mw.frameType)), mw.c.g_wst == old(mw.c.g_wst))
 //@ ensures imp(old(mw.err) == nil && err == nil && !isControlT(old(mw.frameType)), !mw.c.g_wst)
+//@ ensures imp(old(mw.err) == nil && err == nil, mw.c.g_out == mw.c.g_acc)
 //@ ensures imp(old(mw.err) == nil && err != nil && !isControlT(old(mw.frameType)), mw.c.writeErr != nil)
 
 //@ func (io.WriteCloser).Write
@@ -766,3 +767,33 @@ package websocket
 
 //@ func (*httpProxyDialer).DialContext
 //@ tags C07 C18
+
+// ---------------------------------------------------------------------------
+// json.go
+
+//@ pred wOf(wc) := ite(typeIs(wc, "*messageWriter"), asType(wc, "*messageWriter"), asPtr(wc.g_inner, "*messageWriter"))
+
+//@ func (*encoding/json.Encoder).Encode
+//@ params enc v
+//@ results err
+//@ trusted
+//@ let wc := asIface(enc.g_w, "io.WriteCloser")
+//@ let mw := wOf(asIface(enc.g_w, "io.WriteCloser"))
+//@ requires mw != nil && imp(mw.err == nil, WBuf(mw))
+//@ modifies MsgMods(mw)
+//@ ensures !held(mw.c.mu) && mw.c.g_out >= 0 && mw.c.g_acc >= old(mw.c.g_acc) && imp(old(mw.c.writeErr) != nil, mw.c.writeErr == old(mw.c.writeErr))
+//@ ensures imp(mw.err == nil, WBuf(mw) && BufKept(mw.c) && mw.c.writer == old(mw.c.writer))
+//@ ensures imp(mw.err == nil, WData(mw))
+//@ ensures imp(mw.err != nil && old(mw.err) == nil, Ended(mw.c, mw) && err != nil && imp(!isControlT(old(mw.frameType)), mw.c.writeErr != nil))
+//@ ensures imp(old(mw.err) != nil, mw.err == old(mw.err) && BufKept(mw.c) && mw.c.writer == old(mw.c.writer) && mw.c.g_wst == old(mw.c.g_wst))
+//@ ensures isControlT(mw.frameType) == isControlT(old(mw.frameType))
+
+//@ func (*Conn).WriteJSON
+//@ tags C01 C09 C10
+//@ requires WConn(c) && WOpen(c)
+//@ requires WOpenData(c)
+//@ modifies PrevMods(c)
+//@ ensures[state] WConn(c)
+//@ ensures[C09.sent] imp(result == nil, c.writer == nil && c.g_out == c.g_acc && !c.g_wst)
+//@ ensures[C09.closed] imp(old(c.writeErr) != nil, result != nil)
+//@ ensures[C10.failstop] imp(result != nil && c.writer != nil, false)
